@@ -368,6 +368,7 @@ class Transform:
                                 slice.open_start,
                                 open_depth,
                                 None,
+                                slice.open_end,
                             ),
                             open_depth,
                             slice.open_end,
